@@ -134,19 +134,31 @@ def units(ctx):
         ctx.ob("R20.4", "biot_savart_2d unit handling", False, detail=str(e), where=f.fq, construct="biot_savart_2d units",
                message=f"dimension error: {e}", consequence="DimensionalityError or wrong SI factor")
         return
-    g = lambda n: fr.lookup(n)[1]
-    ok = isinstance(g("to_meter"), Rat) and g("to_meter") == ip.kL
-    ctx.ob("R20.4", "to_meter == [length_units] in metres", ok, detail=str(g("to_meter")), where=f.fq, construct="to_meter",
-           loc=loc(f, f.node), message=f"to_meter = {g('to_meter')}", consequence="positions are scaled by the wrong length")
-    ok = isinstance(g("to_amp_per_meter"), Rat) and g("to_amp_per_meter") == ip.kI / ip.kL
-    ctx.ob("R20.4", "to_amp_per_meter == [current_units]/[length_units] in A/m", ok, detail=str(g("to_amp_per_meter")), where=f.fq,
-           construct="to_amp_per_meter", message=f"to_amp_per_meter = {g('to_amp_per_meter')}", consequence="sheet current scaled wrongly")
-    cd, ar, pos = g("current_densities"), g("areas"), g("positions")
-    ok = isinstance(cd, Cols) and cd.cols[0] == T.real("Jx") * ip.kI / ip.kL and isinstance(ar, Rat) and ar == T.real("a") * ip.kL ** 2
-    ctx.ob("R20.4", "currents scaled once by A/m, areas by m^2", ok, detail={"J": str(cd), "areas": str(ar)}, where=f.fq,
+    kcalls = [n for n in own_nodes(f.node) if isinstance(n, ast.Call) and norm(n.func) == "_biot_savart_2d_vector"]
+    if len(kcalls) != 1 or len(kcalls[0].args) != 4:
+        raise AnalysisError("biot_savart_2d no longer calls _biot_savart_2d_vector(eval_positions, positions, current_densities, areas)")
+
+    def val(e):
+        try:
+            return ip.eval(e, fr)
+        except Unsupported as ex:
+            return Opaque(str(ex))
+    ev, pos, cd, ar = [val(a) for a in kcalls[0].args]
+    kL, kI = ip.kL, ip.kI
+    ok = isinstance(ev, Cols) and len(ev.cols) == 3 and ev.cols[0] == T.real("x") * kL and ev.cols[2] == T.real("z") * kL
+    ctx.ob("R20.4", "evaluation points reach the kernel in metres", ok, detail=str(ev)[:200], where=f.fq, construct="eval_positions scaling",
+           loc=loc(f, f.node), message=f"eval positions passed as {str(ev)[:150]}", consequence="positions are scaled by the wrong length")
+    from ..interp import Concat
+    p0 = pos.parts[0] if isinstance(pos, Concat) and pos.parts else pos
+    ok = isinstance(p0, Cols) and p0.cols[0] == T.real("px") * kL and p0.cols[1] == T.real("py") * kL
+    ctx.ob("R20.4", "source positions reach the kernel in metres", ok, detail=str(pos)[:200], where=f.fq, construct="positions scaling",
+           message=f"source positions passed as {str(pos)[:150]}", consequence="positions are scaled by the wrong length")
+    ok = isinstance(cd, Cols) and cd.cols[0] == T.real("Jx") * kI / kL and isinstance(ar, Rat) and ar == T.real("a") * kL ** 2
+    ctx.ob("R20.4", "currents reach the kernel in A/m (scaled once), areas in m^2", ok, detail={"J": str(cd), "areas": str(ar)}, where=f.fq,
            construct="SI scaling of kernel arguments", message=f"J = {cd}, areas = {ar}", consequence="the field is off by a power of the length unit")
     rets = [n for n in own_nodes(f.node) if isinstance(n, ast.Return)]
-    ok = len(rets) == 1 and norm(rets[0].value) in ("B * ureg('tesla')", "ureg('tesla') * B")
+    ok = len(rets) == 1 and isinstance(rets[0].value, ast.BinOp) and isinstance(rets[0].value.op, ast.Mult) and \
+        "ureg('tesla')" in (norm(rets[0].value.left), norm(rets[0].value.right))
     ctx.ob("R20.4", "the kernel output is labelled tesla", ok, detail=[norm(r) for r in rets], where=f.fq, construct="result unit",
            message="result is not labelled tesla", consequence="downstream conversion treats SI tesla as another unit")
     # convert_field
@@ -209,7 +221,13 @@ def loop_potential(ctx):
         fr = lenient_env(ip, f, dict(env, mu_0=ip.mu0))
     except DimMismatch as e:
         raise AnalysisError(str(e))
-    mag = fr.lookup("mag")[1]
+    rets = [n for n in own_nodes(f.node) if isinstance(n, ast.Return)]
+    if len(rets) != 1:
+        raise AnalysisError("current_loop_vector_potential no longer has a single return")
+    try:
+        out = ip.eval(rets[0].value, fr)
+    except Unsupported as e:
+        raise AnalysisError(f"current_loop_vector_potential return value outside the fragment: {e}")
     a = T.real("R") * ip.kL
     I = T.real("I") * ip.kI
     r = T.sqrt_of((x * ip.kL) ** 2 + (y * ip.kL) ** 2 + (z * ip.kL) ** 2)
@@ -218,16 +236,16 @@ def loop_potential(ctx):
     m = 4 * a * r * sin_t / den
     K, E = T.app("ellipk", [m]), T.app("ellipe", [m])
     want = ip.mu0 * I * a / (ip.pi * m * T.sqrt_of(den)) * ((2 - m) * K - 2 * E)
-    ok = isinstance(mag, Rat) and mag == want
-    ctx.ob("R20.6", "A_phi == mu0 I a/(pi m sqrt(r^2+a^2+2 a r sin(theta))) [(2-m)K(m) - 2E(m)], m = 4 a r sin/(...)", ok,
-           detail={"mag": str(mag)[:300]}, where=f.fq, construct="loop potential magnitude", loc=loc(f, f.node),
-           message=f"loop potential magnitude is {str(mag)[:200]}", consequence="the closed form disagrees with the Biot-Savart integral of a current loop")
-    direc = fr.lookup("direc")[1]
     phi = T.app("arctan2", [y * ip.kL, x * ip.kL]) + ip.pi / 2
-    ok = isinstance(direc, Cols) and len(direc.cols) == 3 and direc.cols[0] == T.app("cos", [phi]) and direc.cols[1] == T.app("sin", [phi]) \
-        and (direc.cols[2].is_zero() if isinstance(direc.cols[2], Rat) else False)
-    ctx.ob("R20.6", "direction is the azimuthal unit vector (cos(phi+pi/2), sin(phi+pi/2), 0)", ok, detail=str(direc)[:200], where=f.fq,
-           construct="loop potential direction", message=f"direction {str(direc)[:150]}", consequence="the loop potential points radially / has the wrong handedness")
+    cols = out.si().cols if isinstance(out, Quant) and isinstance(out.mag, Cols) else None
+    ok = cols is not None and len(cols) == 3 and cols[0] == want * T.app("cos", [phi]) and cols[1] == want * T.app("sin", [phi]) \
+        and cols[2].is_zero() and out.unit.dims == dv(M=1, L=1, T=-2, I=-1)
+    ctx.ob("R20.6", "A == mu0 I a/(pi m sqrt(r^2+a^2+2 a r sin(theta))) [(2-m)K(m) - 2E(m)] x azimuthal unit vector, in T m", ok,
+           detail={"returned": str(out)[:300]}, where=f.fq, construct="loop potential", loc=loc(f, f.node),
+           message=f"loop potential is {str(out)[:200]}", consequence="the closed form disagrees with the Biot-Savart integral of a current loop")
+    okdir = cols is not None and (cols[0] * T.app("sin", [phi]) == cols[1] * T.app("cos", [phi]))
+    ctx.ob("R20.6", "direction is azimuthal: A_x sin(phi') == A_y cos(phi') with phi' = atan2(y,x) + pi/2", okdir, where=f.fq,
+           construct="loop potential direction", message="the loop potential is not azimuthal", consequence="wrong handedness / radial component")
 
 
 def distances(ctx):
